@@ -40,6 +40,7 @@ type Program struct {
 	modCache  map[*ssa.Function][]string
 	isolated  map[*ssa.Function]bool
 	gwrites   map[string]bool
+	aliases   map[string]map[string]string // package path -> import alias -> import path
 	freshCache map[*ssa.Function][]string
 	directCache map[*ssa.Function]*directInfo
 	externals map[string]int
@@ -61,8 +62,19 @@ func loadProgram(repo string, patterns []string, overlay map[string][]byte) (*Pr
 	}
 	p := &Program{repo: repo, pkgs: pkgs, ssaPkgs: map[string]*ssa.Package{}, byName: map[string]*ssa.Package{}, ss: newSorts(), heapSorts: map[string]string{}, heapElemType: map[string]types.Type{},
 		funcByKey: map[string]*ssa.Function{}, modCache: map[*ssa.Function][]string{}, isolated: map[*ssa.Function]bool{}, freshCache: map[*ssa.Function][]string{}, directCache: map[*ssa.Function]*directInfo{}, externals: map[string]int{}, addrTaken: map[*ssa.Function]bool{}}
+	p.aliases = map[string]map[string]string{}
 	packages.Visit(pkgs, nil, func(pk *packages.Package) {
 		if strings.HasPrefix(pk.PkgPath, pintPath) {
+			for _, f := range pk.Syntax {
+				for _, im := range f.Imports {
+					if im.Name != nil && im.Name.Name != "_" && im.Name.Name != "." {
+						if p.aliases[pk.PkgPath] == nil {
+							p.aliases[pk.PkgPath] = map[string]string{}
+						}
+						p.aliases[pk.PkgPath][im.Name.Name] = strings.Trim(im.Path.Value, "\"")
+					}
+				}
+			}
 			for _, e := range pk.Errors {
 				p.loadErrors = append(p.loadErrors, e.Error())
 			}
